@@ -103,6 +103,18 @@ def run(ctx):
             im = q.make_image(image_factory=PilImage if fac == "pil" else PyPNGImage, **kw)
             M = [list(map(bool, row)) for row in q.modules]
             n = len(M)
+            if i % 5 == 4 and v < 30:
+                # the image is of the symbol it was made from: compile the same object again (same version, other mask or more
+                # data) BEFORE the image is saved - rows shared between the image and the object's matrix would show
+                try:
+                    if i % 2:
+                        q.mask_pattern = ((q.mask_pattern or 0) + 3) % 8
+                    else:
+                        q.add_data(b"+", optimize=0)
+                    q.make(fit=False)
+                except Exception:  # noqa
+                    pass
+                key += " recompiled-before-save"
             buf = io.BytesIO(); im.save(buf); png_bytes = buf.getvalue()
             if fac == "png":
                 mreq.append(f"pypngrows {n} {b} {box} {bm(M)}")
